@@ -107,6 +107,20 @@ def run(ctx, rep, model=True):
             run_case(ctx, rep, spec, field, dtype, limit, o * 5 + i, model, path, truth, orders)
         if len(rep.violations) >= 10:
             return
+    spec = equal_volume_spec(ctx.rng)
+    rep.count("boxes-of-equal-cell-count-and-different-shape")
+    for o, (field, dtype, limit) in enumerate([("rho", "float64", None), ("temp", "float32", None), ("rho", "float64", 0)]):
+        run_case(ctx, rep, spec, field, dtype, limit, o, model, orders=orders)
+
+
+def equal_volume_spec(rng):
+    """level 0: boxes of 8x4x4 and 4x8x4 cells (same cell count, other shape) and 4x4x8; level 1 over a corner"""
+    levels = [[[[0, 0, 0], [7, 3, 3]], [[0, 4, 0], [3, 11, 3]], [[4, 4, 0], [7, 7, 7]], [[0, 0, 4], [7, 3, 7]], [[0, 4, 4], [3, 11, 7]],
+               [[4, 8, 0], [7, 11, 7]]],
+              [[[0, 0, 0], [7, 7, 7]]]]
+    return {"ndims": 3, "fields": ["rho", "temp"], "time": 0.5, "geo_low": [0.0, -1.0, 0.5], "dx0": [0.25, 0.25, 0.5], "grid0": [8, 12, 8],
+            "block": 4, "levels": levels, "layout": plotgen.random_layout(rng, levels, "scatter"),
+            "data": {"mode": "tags", "seed": rng.randrange(1 << 30)}, "header_style": "amrex", "step": 1}
 
 
 def replay(ctx, rep, obj, model=True):
